@@ -60,7 +60,11 @@ fn write_layout(root: &Path, nodes: &[Node], layout: u64) -> Vec<(PathBuf, Strin
     let mut r = Rng::new(layout);
     let mut table = vec![];
     for (k, (id, deps)) in nodes.iter().enumerate() {
-        let rel = if layout == 0 { format!("bp{k}") } else {
+        let wide = layout >> 62 & 1 == 1; // directory names with blanks, non-ASCII, '%', '+', upper case, long names, deep nesting
+        let rel = if layout == 0 { format!("bp{k}") } else if wide {
+            match r.below(9) { 0 => format!("my bp {k}"), 1 => format!("ünï/ç{k}"), 2 => format!("%41+{k}"), 3 => format!("{}/d{k}", vec!["deep"; 20].join("/")), 4 => format!("{}{k}", "L".repeat(200)), 5 => format!("B{k}"),
+                               6 => format!("_{k}"), 7 => format!("{k}"), _ => format!("x~{k}/a=b,c;d/it's") }
+        } else {
             match r.below(4) { 0 => format!("bp{k}"), 1 => format!("buildpacks/n{k}"), 2 => format!("a/b/c/{k}x"), _ => format!("z{}/m{k}", r.below(2)) }
         };
         let dir = root.join(rel);
@@ -147,8 +151,9 @@ fn run_case(f: &[String]) -> String {
     let mut root_ids: Vec<&String> = selections.iter().flatten().collect();
     root_ids.sort();
     root_ids.dedup();
-    let dummies: Vec<(String, BuildpackDependencyGraphNode)> = root_ids.iter().map(|r| ((*r).clone(), BuildpackDependencyGraphNode { buildpack_id: bid(r), path: PathBuf::new(), dependencies: vec![] })).collect();
     let by_id: Vec<(String, &BuildpackDependencyGraphNode)> = graph.node_weights().map(|n| (n.buildpack_id.to_string(), n)).collect();
+    // (stand-ins are only ever used for root ids the graph does not hold)
+    let dummies: Vec<(String, BuildpackDependencyGraphNode)> = root_ids.iter().filter(|r| !by_id.iter().any(|(i, _)| i == **r)).map(|r| ((*r).clone(), BuildpackDependencyGraphNode { buildpack_id: bid(r), path: PathBuf::new(), dependencies: vec![] })).collect();
     let mut results = vec![];
     for sel in &selections {
         // the caller's way of choosing roots: the graph's own node with that id (libcnb-test), else a node the graph does not hold
@@ -261,6 +266,144 @@ fn generate(tier: &str, seed: u64, emit: &mut dyn FnMut(Case)) {
     }
     // 3. the empty workspace
     emit(mk_case(&[], "-|ghost", 0, "empty", 2, false, false, 0));
+    // 4. big graphs of fixed shapes (5..300 nodes) and big random DAGs, explicit root selections
+    generate_big(thorough, seed, emit);
+}
+
+// ------------------------------------------------------------------------------------------------ big graphs (library family)
+
+/// node counts on both sides of the thresholds at which containers / sorts / bit sets change behaviour
+const BIG_SIZES: &[usize] = &[5, 8, 16, 17, 20, 21, 32, 33, 64, 65, 128, 129, 256, 257, 300];
+
+/// n pairwise distinct ids of one of several styles: a common stem + number (ids are prefixes of one another: n1, n10, n100), dotted / slashed
+/// nesting (x, x.x, x.x/x …), mixed case, long ids
+fn big_ids(r: &mut Rng, n: usize) -> Vec<String> {
+    match r.below(6) {
+        0 => (0..n).map(|i| format!("n{i}")).collect(),
+        1 => (0..n).map(|i| format!("heroku/bp-{i}")).collect(),
+        2 => (0..n).map(|i| { let mut s = String::from("x"); for j in 0..(i % 6) { s.push_str([".x", "/x", "-x"][(i + j) % 3]); } format!("{s}{}", i / 6) }).collect(),
+        3 => (0..n).map(|i| format!("{}{}", ["a", "A", "a.b", "a/b", "a-b", "ab"][i % 6], i / 6)).collect(),
+        4 => (0..n).map(|i| format!("{}/{i}", "long-organisation-name.example".repeat(4))).collect(),
+        _ => (0..n).map(|i| format!("{:03}", (i * 7919) % 1000 + 1000 * (i / 1000))).collect::<Vec<_>>().into_iter().enumerate().map(|(i, s)| if i % 2 == 0 { s } else { format!("{s}.{i}") }).collect(),
+    }
+}
+
+/// adjacency (u depends on every w in adj[u]) of a named shape on n nodes; every shape is acyclic by construction
+fn big_shape(shape: &str, n: usize, r: &mut Rng) -> Vec<Vec<usize>> {
+    let mut adj: Vec<Vec<usize>> = vec![vec![]; n];
+    match shape {
+        "chain-down" => for i in 0..n - 1 { adj[i].push(i + 1); },
+        "chain-up" => for i in 1..n { adj[i].push(i - 1); },
+        "star-out" => { adj[0] = (1..n).collect(); }
+        "star-out-desc" => { adj[0] = (1..n).rev().collect(); }
+        "star-out-mid" => { adj[n / 2] = (0..n).filter(|&w| w != n / 2).collect(); r.shuffle(&mut adj[n / 2]); }
+        "star-in" => for i in 1..n { adj[i].push(0); },
+        "star-in-last" => for i in 0..n - 1 { adj[i].push(n - 1); },
+        "diamonds" => { let mut i = 0; while i + 3 < n { adj[i] = vec![i + 1, i + 2]; adj[i + 1].push(i + 3); adj[i + 2].push(i + 3); i += 3; } }
+        "diamonds-up" => { let mut i = n - 1; while i >= 3 { adj[i] = vec![i - 2, i - 1]; adj[i - 1].push(i - 3); adj[i - 2].push(i - 3); i -= 3; } }
+        "layers" | "layers-shortcuts" => {
+            let width = (n as f64).sqrt().ceil() as usize;
+            let layer = |i: usize| i / width;
+            let layers = layer(n - 1) + 1;
+            for u in 0..n {
+                if layer(u) + 1 < layers {
+                    for _ in 0..r.range(1, 3) { let w = (layer(u) + 1) * width + r.below(width as u64) as usize; if w < n && !adj[u].contains(&w) { adj[u].push(w); } }
+                    // long shortcut edges: straight to one of the last layers
+                    if shape == "layers-shortcuts" && r.chance(1, 3) { let l = r.range(layer(u) as u64 + 1, layers as u64 - 1) as usize; let w = l * width + r.below(width as u64) as usize; if w < n && !adj[u].contains(&w) { adj[u].insert(0, w); } }
+                }
+            }
+        }
+        "chain-shortcuts" => { for i in 0..n - 1 { adj[i].push(i + 1); } adj[0].insert(0, n - 1); for i in (0..n - 3).step_by(5) { let w = r.range(i as u64 + 2, n as u64 - 1) as usize; if r.chance(1, 2) { adj[i].insert(0, w); } else { adj[i].push(w); } } }
+        "tree" => for i in 0..n { for c in [2 * i + 1, 2 * i + 2] { if c < n { adj[i].push(c); } } },
+        "tree-up" => for i in 1..n { adj[i].push((i - 1) / 2); },
+        "complete" => for i in 0..n { adj[i] = (i + 1..n).collect(); if i % 2 == 1 { adj[i].reverse(); } },
+        "components" => { let mut i = 0; while i < n { let len = r.range(1, 4) as usize; for j in i..(i + len - 1).min(n - 1) { if r.chance(1, 2) { adj[j].push(j + 1); } else { adj[j + 1].push(j); } } i += len; } }
+        "isolated" => {}
+        "bipartite" => { let half = n / 2; for u in 0..half { for _ in 0..r.range(1, 4) { let w = half + r.below((n - half) as u64) as usize; if !adj[u].contains(&w) { adj[u].push(w); } } } }
+        "dup-edges" => { for i in 0..n - 1 { adj[i].push(i + 1); if i + 2 < n { adj[i].push(i + 2); } adj[i].push(i + 1); if i % 3 == 0 && i + 2 < n { adj[i].push(i + 2); adj[i].push(i + 2); } } }
+        _ => { // "random": a random topological position per node, edges only towards earlier positions, expected out-degree ~ 2.5
+            let mut pos: Vec<usize> = (0..n).collect();
+            r.shuffle(&mut pos);
+            for u in 0..n { for _ in 0..r.below(6) { let w = r.below(n as u64) as usize; if pos[w] < pos[u] && !adj[u].contains(&w) { adj[u].push(w); } } }
+        }
+    }
+    adj
+}
+
+fn generate_big(thorough: bool, seed: u64, emit: &mut dyn FnMut(Case)) {
+    let shapes = ["chain-down", "chain-up", "star-out", "star-out-desc", "star-out-mid", "star-in", "star-in-last", "diamonds", "diamonds-up", "layers", "layers-shortcuts", "chain-shortcuts", "tree", "tree-up", "complete",
+                  "components", "isolated", "bipartite", "dup-edges", "random", "random"];
+    let rounds = if thorough { 2 } else { 1 };
+    let mut idx = 0u64;
+    for round in 0..rounds {
+        for &n in BIG_SIZES {
+            for (shape_i, shape) in shapes.into_iter().enumerate() {
+                idx += 1;
+                // the complete DAG has n^2/2 edges: up to 65 nodes (2 080 edges)
+                if shape == "complete" && n > 65 { continue; }
+                // quick tier: at 256, 257 and 300 nodes a third of the shapes each (every shape at one of the three sizes)
+                if !thorough && n >= 256 && (shape_i + n) % 3 != 0 { continue; }
+                let mut r = Rng::for_case(seed ^ 0x13B1_6000, idx);
+                let ids = big_ids(&mut r, n);
+                let adj = big_shape(shape, n, &mut r);
+                debug_assert!(acyclic(n, &adj));
+                // the order in which the nodes are written (= directory numbering) is a random permutation for every second case
+                let mut order: Vec<usize> = (0..n).collect();
+                if r.chance(1, 2) { r.shuffle(&mut order); }
+                let mut nodes: Vec<Node> = order.iter().map(|&u| (ids[u].clone(), adj[u].iter().map(|&w| ids[w].clone()).collect())).collect();
+                let dangling = r.chance(1, 10);
+                if dangling { let u = if r.chance(1, 2) { n - 1 } else { r.below(n as u64) as usize }; let at = r.below(nodes[u].1.len() as u64 + 1) as usize; nodes[u].1.insert(at, "ghost/missing".to_string()); }
+                // selections: everything in written order and reversed, the nodes nothing depends on, single nodes (first, last, middle, random), pairs,
+                // a threshold-sized prefix, a repeated root, an unknown root, the empty selection
+                let mut indeg = vec![0usize; n];
+                for a in &adj { for &w in a { indeg[w] += 1; } }
+                let all: Vec<String> = nodes.iter().map(|x| x.0.clone()).collect();
+                let mut selv: Vec<Vec<String>> = vec![all.clone(), all.iter().rev().cloned().collect(), (0..n).filter(|&u| indeg[u] == 0).map(|u| ids[u].clone()).collect()];
+                // (the spec oracle's closure computation is cubic in the node count: fewer selections on the biggest graphs)
+                let singles: Vec<usize> = if n >= 256 { vec![0, n - 1, r.below(n as u64) as usize] } else { vec![0, n - 1, n / 2, r.below(n as u64) as usize, r.below(n as u64) as usize] };
+                for u in singles { selv.push(vec![ids[u].clone()]); }
+                if n < 256 {
+                    selv.push(vec![ids[n - 1].clone(), ids[0].clone()]);
+                    selv.push(vec![ids[r.below(n as u64) as usize].clone(), ids[r.below(n as u64) as usize].clone(), ids[0].clone(), ids[0].clone()]);
+                }
+                selv.push(all.iter().take(33.min(n)).cloned().collect());
+                if r.chance(1, 3) { let mut s = vec![ids[0].clone()]; s.insert(r.below(2) as usize, "not/there".to_string()); selv.push(s); }
+                if r.chance(1, 4) { selv.push(vec![]); }
+                let sels: Vec<String> = selv.iter().map(|s| join(",", s)).collect();
+                let layout = match (idx + round) % 4 { 0 => 0, 1 => 1 + r.below(1 << 40), _ => (1u64 << 62) | r.below(1 << 40) };
+                let mut c = mk_case(&nodes, &sels.join("|"), layout, if dangling { "big-dangling" } else { "big" }, sels.len(), dangling, shared_node(n, &adj), depth(n, &adj));
+                c.tags.push(("shape".into(), shape.into()));
+                c.tags.push(("wide-dirs".into(), u8::from(layout >> 62 & 1 == 1).to_string()));
+                emit(c);
+            }
+        }
+    }
+    // medium random DAGs (1..40 nodes) over the id styles above: prefix-sharing ids, frequent duplicate edges, directory names with blanks / non-ASCII / deep nesting
+    let samples: u64 = if thorough { 3_000 } else { 400 };
+    for k in 0..samples {
+        let mut r = Rng::for_case(seed ^ 0x13B1_7000, k);
+        let n = if r.chance(1, 4) { r.range(13, 40) } else { r.range(1, 12) } as usize;
+        let ids = big_ids(&mut r, n);
+        let mut adj = big_shape("random", n, &mut r);
+        for a in adj.iter_mut() { if !a.is_empty() && r.chance(1, 3) { for _ in 0..r.range(1, 3) { let x = *r.pick(a); let at = r.below(a.len() as u64 + 1) as usize; a.insert(at, x); } } }
+        let mut nodes: Vec<Node> = (0..n).map(|u| (ids[u].clone(), adj[u].iter().map(|&w| ids[w].clone()).collect())).collect();
+        r.shuffle(&mut nodes);
+        let dangling = r.chance(1, 10);
+        // a dangling dependency whose id is a prefix / an extension of an existing id
+        if dangling { let u = r.below(n as u64) as usize; let near = r.pick(&ids).clone(); let ghost = match r.below(3) { 0 => format!("{near}0"), 1 => format!("{near}.x"), _ => "ghost".to_string() }; if !ids.contains(&ghost) { let at = r.below(nodes[u].1.len() as u64 + 1) as usize; nodes[u].1.insert(at, ghost); } }
+        let dangling = nodes.iter().any(|nd| nd.1.iter().any(|d| !ids.contains(d)));
+        let mut selv = vec![];
+        for _ in 0..r.range(1, 8) {
+            let kk = if r.chance(1, 20) { 0 } else { r.range(1, (n as u64).min(8)) };
+            let mut sel: Vec<String> = (0..kk).map(|_| r.pick(&ids).clone()).collect();
+            if r.chance(1, 12) { let near = r.pick(&ids).clone(); let unknown = format!("{near}/x"); if !ids.contains(&unknown) { let at = r.below(sel.len() as u64 + 1) as usize; sel.insert(at, unknown); } }
+            selv.push(join(",", &sel));
+        }
+        let layout = match r.below(4) { 0 => 0, 1 => 1 + r.below(1 << 40), _ => (1u64 << 62) | r.below(1 << 40) };
+        let mut c = mk_case(&nodes, &selv.join("|"), layout, if dangling { "mid-dangling" } else { "mid" }, selv.len(), dangling, shared_node(n, &adj), depth(n, &adj));
+        c.tags.push(("wide-dirs".into(), u8::from(layout >> 62 & 1 == 1).to_string()));
+        emit(c);
+    }
 }
 
 // ------------------------------------------------------------------------------------------------ the `pkg` family: the real executable
